@@ -278,7 +278,7 @@ def run(ck, F, tier):
     parses = [c for c in calls_to(dn.value, r"core::str::<impl str>::parse|std::str::<impl str>::parse")
               if ENUM in "".join(c.get("gargs", []))]
     ck.inst("T7", "c_api-parse", len(parses) == 1 and local_name(parses[0]["recv"]) is not None
-            and local_name(parses[0]["recv"]).startswith("implementation#"),
+            and len(dn.params) >= 2 and local_name(parses[0]["recv"]) == dn.params[1].get("name"),
             dn.span, "C constructor parses its `implementation` argument with FromStr (%d parse calls)" % len(parses))
     ck.floor("T7", "factory call sites", n7, 2)
 
